@@ -1,6 +1,56 @@
-(* placeholder; theorems follow *)
-From Coq Require Import String List.
-From Glom Require Import Base.PyVal Model.Interp.
-Theorem head_mode_nil_C09 : head_mode nil = AUTO.
-Proof. reflexivity. Qed.
-Print Assumptions head_mode_nil_C09.
+(* Properties/C09.v — Match succeeds exactly on conforming targets and returns them unchanged. *)
+From Coq Require Import String ZArith Bool List.
+From Glom Require Import Base.PyVal Model.TEval Model.Exc Model.Interp Proofs.InterpProofs Proofs.MatchProofs.
+Import ListNotations.
+Local Open Scope string_scope.
+Local Open Scope list_scope.
+
+(* [mres p v] is the documented rule set written as a structural recursion on the pattern (Some r: v conforms and r is
+   returned).  For every pattern built from == constants, types (isinstance), lists (each item against the first
+   accepting alternative) and tuples (positionally, same length), every target, every scope in match mode and any
+   sufficient fuel: the evaluation leaves the state untouched, returns r when the target conforms and raises
+   MatchError / TypeMatchError when it does not — soundness and completeness at once.
+   PARTIAL with respect to the property text: dict patterns are covered by the key-loop theorems below and by the
+   correspondence, not by [mres]. *)
+Theorem match_decides_conformance_partial : forall fixed p fuel sc v st,
+  pdepth p < fuel -> head_mode sc = MATCH -> head_arg sc = false ->
+  decides (glom_ fixed fuel sc v (to_spec p)) st (mres p v).
+Proof. exact match_decides_lemma. Qed.
+Print Assumptions match_decides_conformance_partial.
+
+(* dict patterns: per target key the spec keys are tried in spec order and the first accepting one selects the value spec *)
+Theorem dict_key_first_match : forall rec own sc key value pre k vs post i st st1 key' child st2,
+  speckeys_rejected rec own sc key pre st st1 -> rec (own :: sc) key (spec_key k) st1 = (Ok (key', child), st2) ->
+  match_key_loop true rec own sc key value (pre ++ (k, vs) :: post) i st
+  = (let! (v, _) := rec (set_mode (fmode own) child :: own :: sc) value vs in ret (Some (i + length pre, key', v))) st2.
+Proof. exact match_key_first. Qed.
+Print Assumptions dict_key_first_match.
+
+Theorem dict_key_no_match : forall rec own sc key value es i st st1,
+  speckeys_rejected rec own sc key es st st1 -> match_key_loop true rec own sc key value es i st = (Ok None, st1).
+Proof. exact match_key_none. Qed.
+Print Assumptions dict_key_no_match.
+
+Theorem required_key_rules : forall k v ty s d,
+  is_required (SStr k) = true /\ is_required (SLit v) = true /\ is_required (SType ty) = false /\
+  is_required (SOptional v d) = false /\ is_required (SRequired s) = true /\ is_required SM = false.
+Proof. exact required_rules. Qed.
+Print Assumptions required_key_rules.
+
+(* MatchError is a GlomError; TypeMatchError is a MatchError and a TypeError (regenerated class table) *)
+Theorem match_error_classes :
+  exc_isa "MatchError" "GlomError" = true /\ exc_isa "TypeMatchError" "MatchError" = true /\
+  exc_isa "TypeMatchError" "TypeError" = true /\ exc_isa "CheckError" "GlomError" = true.
+Proof. exact match_error_lattice. Qed.
+Print Assumptions match_error_classes.
+
+(* non-vacuity *)
+Definition ex_p : pat := PList [PTuple [PType TyInt; PLit (VStr "a")]; PType TyStr].
+Definition ex_good : val := VList 1 [VTuple 2 [VInt 3; VStr "a"]; VStr "z"].
+Definition ex_bad : val := VList 1 [VTuple 2 [VInt 3; VStr "b"]].
+Example ex_conforms : mres ex_p ex_good = Some (VList 0 [VTuple 0 [VInt 3; VStr "a"]; VStr "z"]).
+Proof. vm_compute. reflexivity. Qed.
+Example ex_rejects : mres ex_p ex_bad = None.
+Proof. vm_compute. reflexivity. Qed.
+Example ex_run : fst (glom_top true [] ex_good (SMatch (to_spec ex_p) None)) = Ok (VList 0 [VTuple 0 [VInt 3; VStr "a"]; VStr "z"]).
+Proof. vm_compute. reflexivity. Qed.
